@@ -56,6 +56,24 @@ substitute_decl(CPPDeclaration::SubstDecl &subst,
   if (rep->_pointing_at == _pointing_at) {
     delete rep;
     rep = this;
+  } else {
+    // Reference collapsing: the substituted type may itself be a reference
+    // (possibly behind typedefs); a reference to a reference is an lvalue
+    // reference unless both are rvalue references.
+    CPPType *target = rep->_pointing_at;
+    while (target->get_subtype() == ST_typedef) {
+      target = target->as_typedef_type()->_type;
+    }
+    CPPReferenceType *inner = target->as_reference_type();
+    if (inner != nullptr) {
+      CPPType *collapsed = inner;
+      if (_value_category == VC_lvalue && inner->_value_category != VC_lvalue) {
+        collapsed = CPPType::new_type(new CPPReferenceType(inner->_pointing_at, VC_lvalue));
+      }
+      delete rep;
+      subst.insert(SubstDecl::value_type(this, collapsed));
+      return collapsed;
+    }
   }
   rep = CPPType::new_type(rep)->as_reference_type();
   subst.insert(SubstDecl::value_type(this, rep));
